@@ -513,6 +513,60 @@ def compare_direct(dc, io, mo, at, stats):
     return out
 
 
+# ------------------------------------------------------------------ the implementation's own deltas
+# second tie: the render model run on the deltas and totals the IMPLEMENTATION
+# produced (model entry 1), so that the renderer is compared on its own even
+# where the ledger model and the ledger differ.
+MONEY = re.compile(r"^([+-]?)\$(\d+(?:\.\d+)?)$")
+
+
+def _money(s):
+    m = MONEY.match(s)
+    if not m:
+        raise ValueError(s)
+    return ("-" if m.group(1) == "-" else "") + m.group(2)
+
+
+def impl_direct_case(r, sname):
+    """direct case from the implementation's deltas of one security and the
+    totals of its full-precision footer; None when it cannot be built"""
+    so = r["raw"]["secs"][sname]
+    tf = r["raw"]["render_full"]["secs"][sname]
+    rows = r["case"]["rows"]
+    ds = []
+    for d in so["deltas"]:
+        a = d["act"]
+        o = {"td": datetime.date.fromisoformat(d["td"]).toordinal(), "sd": datetime.date.fromisoformat(d["sd"]).toordinal(),
+             "af": d["afname"], "act": a, "memo": "", "pre": list(d["pre"]), "post": list(d["post"]),
+             "gain": d["gain"], "sfl": d["sfl"]}
+        src = rows[d["ri"]] if d.get("ri") is not None and d["ri"] < len(rows) and rows[d["ri"]]["act"] == a and a != "SfLA" else None
+        if a in ("Buy", "Sell", "RoC") and src is None:
+            return None
+        if a in ("Buy", "Sell"):
+            q = d["q"]
+            c, cc = row_currencies(src)
+            o.update({"sh": q[0], "aps": q[1], "com": q[2], "rate": q[3], "crate": q[4],
+                      "cur": bytes(c).decode(), "ccur": bytes(cc).decode()})
+            if a == "Sell" and src.get("sfl") is not None:
+                o["spec"] = [src["sfl"][0][0], bool(src["sfl"][1])]
+        elif a == "RoC":
+            o.update({"aps": d["q"][0], "rate": d["q"][1], "cur": bytes(row_currencies(src)[0]).decode()})
+        elif a == "SfLA":
+            o.update({"sh": d["sfla"][0], "aps": d["sfla"][1]})
+        else:
+            o.update({"post_split": d["q"][0], "pre_split": d["q"][1], "int_only": bool(d["q"][2])})
+        ds.append(o)
+    try:
+        labels = tf["footer"][8].split("\n")
+        vals = [_money(v) for v in tf["footer"][9].split("\n")]
+        if labels[0] != "Total" or len(labels) != len(vals):
+            return None
+        years = [[int(l), v] for l, v in zip(labels[1:], vals[1:])]
+    except (ValueError, IndexError):
+        return None
+    return {"deltas": ds, "gains": {"total": vals[0], "years": years}}
+
+
 # ------------------------------------------------------------------ corpus
 def _row(sec, day, act, af=None, **kw):
     r = {"sec": sec, "td": day - kw.pop("lag", 0), "sd": day, "act": act, "af": af,
@@ -678,6 +732,11 @@ def check_pass(res, ctx, rs, to_cents_view):
     allrs = list(rs) + extra
     ms = run_pipeline([r["case"] for r in allrs])
     for k, (r, m) in enumerate(zip(allrs, ms)):
+        if core.diff_exact(r["dec"], r["impl"]) is not None:
+            # the LEDGER model and the ledger differ on this case: that is the business of C01-C05; the
+            # renderer is still compared below on the implementation's own deltas (1b)
+            stats["pipeline:ledger-differs-left-to-C01-C05"] += 1
+            continue
         status, out = compare_run(r, m, stats)
         stats["pipeline:" + status] += 1
         if k >= len(rs):
@@ -694,6 +753,36 @@ def check_pass(res, ctx, rs, to_cents_view):
             cf = cc = None
             if isinstance(rf, dict) and "secs" in rf and mm["table"] in rf["secs"]:
                 cf, cc = impl_cells(rf["secs"][mm["table"]], r["raw"]["render_cents"]["secs"][mm["table"]], mm)
+            classify(mm, cf, cc, {"input": r["hc"]})
+    # 1b. the render model on the implementation's own deltas and totals (entry 1)
+    jobs = []
+    for r in allrs:
+        rf = r["raw"].get("render_full")
+        if r["impl"]["status"] != "ok" or not isinstance(rf, dict) or "secs" not in rf:
+            continue
+        for sname in sorted(rf["secs"]):
+            dc = impl_direct_case(r, sname)
+            if dc is None:
+                stats["impl-deltas:skipped"] += 1
+            else:
+                jobs.append((r, sname, dc))
+    encs = [direct_ints(dc) for _, _, dc in jobs]
+    mouts = [parse_direct(o) for o in run_model([e[0] for e in encs], group="render")]
+    for (r, sname, dc), (_, at), mo in zip(jobs, encs, mouts):
+        stats["impl-deltas:tables"] += 1
+        names = {"sec": {0: sname}, "aff": {v: k for k, v in at.items()}, "memo": {}}
+        out = []
+        for view, key in (("full", "render_full"), ("cents", "render_cents")):
+            mt = mo.get(view, {"status": "model-error"})
+            if mt["status"] != "ok":
+                out.append({"view": view, "table": sname, "column": "-", "row": None, "what": "model on the implementation's deltas: %s" % (mt,)})
+                continue
+            sub = collections.Counter()
+            compare_table(mt["value"], r["raw"][key]["secs"][sname], names, view, sname, sub, out)
+            stats["impl-deltas:cells"] += sum(v for k, v in sub.items() if k.startswith("cells:"))
+        for mm in out[:2]:
+            mm = dict(mm, what="(model run on the implementation's own deltas) " + mm["what"])
+            cf, cc = impl_cells(r["raw"]["render_full"]["secs"][sname], r["raw"]["render_cents"]["secs"][sname], mm)
             classify(mm, cf, cc, {"input": r["hc"]})
     # 2. deltas rendered directly
     exe, log = build_harness("render")
